@@ -245,6 +245,7 @@ HookOK(ev) ==
    IF Len(ev.tag) > 4 /\ SubSeq(ev.tag, 1, 4) = "mul." THEN TPre(SubSeq(ev.tag, 5, Len(ev.tag)), ev.a, ev.b)
    ELSE IF ev.tag = "fft.trunc" THEN FFTSafe(ev.a, ev.b, ev.c, ev.d, "trunc")
    ELSE IF ev.tag = "fft.mfa" THEN FFTSafe(ev.a, ev.b, ev.c, ev.d, "mfa")
+   ELSE IF ev.tag = "fft.coeff" THEN FFTCoeffOK(ev.a, ev.b, ev.c, ev.d)
    ELSE TRUE
 Hook(ev) == ev.e = "hk" /\ HookOK(ev) /\ UNCHANGED mvars
 
